@@ -4,6 +4,7 @@ import (
 	"bytes"
 	"errors"
 	"fmt"
+	"os"
 	"regexp"
 	"sort"
 	"strings"
@@ -378,6 +379,7 @@ func runC16() int {
 	}
 	names = kept
 	sort.Strings(names)
+	c16ListedNames = names
 	r.Extra("names", len(names))
 	r.Extra("positions", len(c16Positions))
 	type job struct {
@@ -423,6 +425,9 @@ func runC16() int {
 		}
 	}
 	r.Extra("cases", len(jobs))
+	if os.Getenv("C16_ONLY") != "" { // authoring aid: run only the named extension parts
+		jobs = nil
+	}
 	r.ParallelFor(len(jobs), func(i int) {
 		j := jobs[i]
 		r.Distinct(j.pos)
@@ -436,8 +441,17 @@ func runC16() int {
 		mm["LVAR"] = "float3"
 		return mm
 	}())})
+	if rc := c16RunExtensions(r); rc != 0 {
+		return rc
+	}
 	printKeys(r)
-	return r.Finish("a fixed executable seed with one entity of every kind (2 structs sharing a member name, alias, const, private/workgroup/storage/uniform globals, 2 functions, parameter, local var, let, entry point) x every name from the union of independent HLSL, MSL/C++14 and GLSL reserved-word/builtin lists, naga helper/temporary patterns, case/suffix variants and non-ASCII identifiers, at every one of 15 positions; plus ordered pairs from a 48-name adversarial subset at pairs of positions (all position pairs in the thorough tier). Oracle per text backend: output parses (scope-resolved) without new identifier problems relative to the neutral-name baseline (reserved spelling, duplicate in scope, hidden builtin), the reported entry-point name exists, and executing the text gives the same result as with neutral names. distinct = positions / position pairs exercised",
+	return r.Finish("(1) fixed lists: a fixed executable seed with one entity of every kind (2 structs sharing a member name, alias, const, private/workgroup/storage/uniform globals, 2 functions, parameter, local var, let, entry point) x every name from the union of independent HLSL, MSL/C++14 and GLSL reserved-word/builtin lists, naga helper/temporary patterns, case/suffix variants and non-ASCII identifiers, at every one of 15 positions; plus ordered pairs from a 48-name adversarial subset at pairs of positions (all position pairs in the thorough tier). "+
+		"(2) self-collision closure, per seed (stages: vertex + 2 fragment + compute entry points with IO structs, bare parameters, builtins, texture+sampler, uniform/storage/private globals; vin: vertex entry point with a struct input; helpers: matCx2 in uniform, runtime array behind an atomic, struct/array constructors, signed div/mod, workgroup array and atomic, for loop, pointer parameter, atomic compare-exchange, modf/frexp, names differing only in case): every spelling DECLARED in the text emitted under neutral names by any backend that is not a user name (read by an independent declaration reader, nothing matched by pattern) x every user entity of the seed; then every spelling that is new in such an output x every other entity while the first renaming stays (quick: parents restricted to one entity per entity kind x one spelling per character-shape class; thorough: all parents, and a third level from per-kind parents). "+
+		"(3) identifier character structure: every WGSL identifier of at most 4 (thorough 5) symbols over {a A _ 1 e-acute alpha CJK math-bold-x} at a local, a private global and a struct member, then the spelling it was emitted with at a second entity of the same scope; every ordered pair of identifiers of at most 3 symbols that agree after case folding and underscore merging (at most 2, thorough 3, symbols: also after replacing or dropping non-ASCII characters) as two locals / two globals / two members; every name of the fixed lists at the same three positions followed by its emitted spelling at the sibling. "+
+		"Oracle per emitted text (HLSL and MSL module, GLSL per entry point, all stages): the backend succeeds; an independent scope-resolving reader of the C-family text finds no two declarations of one spelling in one scope, no declared spelling that is a keyword / contains a non-ASCII character / is reserved (GLSL: __ anywhere, gl_ prefix; MSL: __ anywhere, _ + capital) beyond those already present under neutral names; every identifier reference resolves to the declaration in the same position as under neutral names (alpha-comparison of the two texts, member accesses matched against the renamed member declarations); the reported entry-point name names a function of the text; where the dialect interpreter can read the text it reports no new identifier problem and executing every compute entry point gives the same buffers as under neutral names. distinct = (seed, entity tuple) classes exercised",
 		[]string{"reserved-word lists are the interpreters' own (written from the language specifications); names the WGSL front end rejects are skipped",
-			"identifier problems already present with neutral names (naga's own __-prefixed temporaries) are not attributed to the user name"})
+			"identifier problems already present with neutral names (naga's own __-prefixed temporaries) are not attributed to the user name",
+			"a candidate spelling equal to a word of the seed text itself (WGSL keywords, builtin and attribute names, swizzles) is skipped: it could change the meaning of the WGSL program",
+			"hiding of an outer declaration by an inner one is a violation only when some reference is captured by it (judged by the alpha-comparison); texts that differ from the neutral text in more than spelling are not alpha-compared (counted)",
+			"vertex/fragment texts and texts with textures are judged by the declaration reader only (the dialect interpreters execute compute entry points)"})
 }
